@@ -2217,6 +2217,11 @@ def h_merge_fold(ctx, p):
 
 
 LOSSLESS = ('IntoIterator::into_iter', 'Iterator::copied', 'Iterator::cloned', 'Iterator::by_ref')
+
+
+def _lossless(name):
+    """a call that hands on every item of its receiver, in order (incl. core's `impl IntoIterator for [T; N]`)"""
+    return any(name.endswith(x) for x in LOSSLESS) or (name.endswith('::into_iter') and 'IntoIterator for' in name)
 DRIVERS = ('Iterator::next', 'Iterator::for_each', 'Iterator::fold', 'Iterator::try_for_each', 'Iterator::try_fold')
 
 
@@ -2226,7 +2231,7 @@ def source_chain_ok(tag, src):
     if tag == src:
         return True
     if isinstance(tag, tuple) and len(tag) >= 3 and tag[0] in ('u', 'c') and isinstance(tag[1], str) \
-            and any(tag[1].endswith(x) for x in LOSSLESS) and isinstance(tag[2], tuple) and tag[2]:
+            and _lossless(tag[1]) and isinstance(tag[2], tuple) and tag[2]:
         return source_chain_ok(tag[2][0], src)
     return False
 
@@ -2243,7 +2248,7 @@ def bulk_source_ok(E, body, events):
         if not (isinstance(e[2], tuple) and e[2]):
             continue
         recv = e[2][0]
-        if any(e[1].endswith(x) for x in LOSSLESS):
+        if _lossless(e[1]):
             continue
         if any(e[1].endswith(x) for x in DRIVERS):
             n += 1
@@ -2355,6 +2360,43 @@ def _pulled_cb(e):
 
 def _item_of_cb(e):
     return ('cbarg',)
+
+
+def pop_fold_iteration(props):
+    """fold of a consuming (pop) iterator written by hand: per iteration exactly the last live element is moved
+    out (len goes down by one) and handed to the closure, once"""
+    def hook(E, body, key, st, seg, depth=0):
+        reads = [e for e in seg if e[0] == 'read']
+        calls = [e for e in seg if e[0] == 'user' and (e[1].endswith('::call_mut') or e[1].endswith('::call_once')
+                                                      or e[1].endswith('::call') or e[1] == 'call')]
+        if not reads and not calls:
+            return
+        it = Iteration(E, st, seg)
+        nm = body.name
+        E.iter_classes['folded'] += 1
+        ok = len(reads) == 1
+        if ok:
+            mid, idx = reads[0][1], reads[0][2]
+            ms = st.maps[mid]
+            lens = [e for e in seg if e[0] == 'len' and e[1] == mid]
+            ok = len(lens) == 1 and st.zone.entails_eq(idx, ms.len)
+        it_req(E, props, 'ONCE', ok, nm + ':fold',
+               'each round must move out exactly the last live element and decrease len by one (the order of next())', it)
+        if not ok:
+            return
+        kt, vt = reads[0][3]
+        good = len(calls) == 1 and (E.tag_mentions(calls[0][2], kt) or E.tag_mentions(calls[0][2], vt))
+        it_req(E, props, 'POL', good, nm + ':fold', 'the element moved out must be handed to the closure, exactly once', it)
+    return hook
+
+
+def h_pop_fold(ctx, p):
+    nm = ctx.body.name
+    ctx.classes['folded-all'] += 1
+    mid = map_in(p.E, p.self0)
+    ms = p.st.maps.get(mid) if mid else None
+    ctx.req('POL', ms is not None and (ms.dead or p.z.entails_eq(ms.len, 0)), nm,
+            'fold may return only when no element is left in the iterator', p)
 
 
 # roots in which the user callable must be called at most once per stored element (tracked by the interpreter:
@@ -2661,6 +2703,11 @@ for _path, _how in ((INTOITER, 'owned-pair'), (INTOKEYS, 'owned-key'), (INTOVALU
     HANDLERS[(_path, IT, 'size_hint')] = ({'C10'}, h_pop_count('size_hint'))
     HANDLERS[(_path, ESI, 'len')] = ({'C10'}, h_pop_count('len'))
 HANDLERS[(INTOITER, IT, 'count')] = ({'C10'}, h_pop_count('count'))
+for _path in (INTOITER, INTOKEYS, INTOVALUES, SETINTOITER):
+    HANDLERS[(_path, IT, 'fold')] = ({'C10'}, h_pop_fold)
+    ITER_HOOKS[(_path, IT, 'fold')] = ({'C10'}, pop_fold_iteration, {'folded'})
+    OPTIONAL.add((_path, IT, 'fold'))
+    CLASSES[(_path, IT, 'fold')] = {'folded-all'}
 HANDLERS.update({
     (MAP, None, 'iter'): ({'C09', 'C05'}, h_make_cursor('iter')),
     (MAP, None, 'iter_mut'): ({'C09', 'C05'}, h_make_cursor('iter')),
